@@ -264,6 +264,23 @@ def test_lh1(lh, rng, quick):
         s.expect(info.get("rebuilds", 0) >= 1, "%s: tree rebuilt" % label)
         rebuilds += info.get("rebuilds", 0)
         deepest = max(deepest, info.get("max_code_len", 0))
+    # the longest codes the scheme can produce: a few symbols whose counts grow like Fibonacci numbers above the ~300 never-used symbols
+    # (each weight at least the sum of everything below it), then the rare symbols, whose codes sit at the bottom of that chain
+    def fibs(k):
+        a, b2, out = 1, 1, []
+        for _ in range(k):
+            out.append(a)
+            a, b2 = b2, a + b2
+        return out
+    rare = [L(200), C(5, 3), L(201), C(100, 60), L(0), L(202), C(4000, 17), L(250)]
+    for k, mlt, shuffled in ((9, 340, False), (8, 340, False), (9, 360, False), (9, 340, True)):
+        pool = [L(i) for i, c in enumerate(fibs(k)) for _ in range(c * mlt)]
+        if shuffled:
+            rng.shuffle(pool)
+        info = {}
+        s.add("Fibonacci-weighted literals (%d symbols x %d%s), then rare symbols" % (k, mlt, ", shuffled" if shuffled else ""), E, m, pool + rare * 3, info=info)
+        deepest = max(deepest, info.get("max_code_len", 0))
+    s.expect(deepest >= 18, "codes of 18 bits (got %d)" % deepest)
     s.add("pad bit 1", E, m, E.random_cmds(rng, m, 100), pad_bit=1)
     text = parse_text(plaintext(), 3, 60, 4095)
     s.expect(E.expand(text, m) == plaintext(), "parsed text expands to itself")
